@@ -199,8 +199,9 @@ theorem namesIdx_basic (names : Names) (bs : Shape) (items : List Ix) (P : List 
   have hn := noEll_of_basicNoEll items hb
   have hlook := takeOf_walk items _ bs P names [] names hb hw rfl hlen
   simp only [List.length_nil] at hlook
-  have hconv : (convertEllipsis (.tuple (if (items.filter (· ≠ Ix.none)).length < bs.length then items ++ [Ix.ell] else items)) bs.length)
+  have hconv : convertEllipsis (.tuple (namesItems items bs.length)) bs.length
       = .ok (.tuple (items ++ List.replicate (bs.length - specified items) slAll)) := by
+    unfold namesItems
     rw [filter_nonNone_length items hb]
     by_cases hlt : specified items < bs.length
     · rw [if_pos hlt]
@@ -213,8 +214,287 @@ theorem namesIdx_basic (names : Names) (bs : Shape) (items : List Ix) (P : List 
   have hloop := namesLoop_basic (items ++ List.replicate (bs.length - specified items) slAll)
     { take := [], count := 0, noMore := false } (basicNoEll_append_slAll items _ hb)
   simp only [List.nil_append] at hloop
-  simp only [namesIdx, isBoolean_basic items hb, PyIndex.items, hconv, hloop, hlook, normNames]
-  split <;> simp_all
+  have htake : namesTake names bs.length items = .ok (pieceNames P names) := by
+    simp only [namesTake, hconv, PyIndex.items, hloop, hlook]
+  simp only [namesIdx, isBoolean_basic items hb, PyIndex.items, htake, normNames]
   split <;> rfl
+
+end TdVerif.C03
+
+namespace TdVerif.C03
+open TorchSpec Td
+
+/-- number of items that are not `None` (each advances `count` in `_get_names_idx` by one) -/
+def nonNone (items : List Ix) : Nat := (items.filter (· ≠ Ix.none)).length
+
+theorem nonNone_cons_none (r : List Ix) : nonNone (Ix.none :: r) = nonNone r := by simp [nonNone]
+
+theorem nonNone_cons (x : Ix) (r : List Ix) (h : x ≠ Ix.none) : nonNone (x :: r) = nonNone r + 1 := by
+  simp [nonNone, h]
+
+/-- `_get_names_idx` only ever asks for names of dims it has counted -/
+theorem namesLoop_bound (items : List Ix) : ∀ (st : NamesSt),
+    (namesLoop items st).count = st.count + nonNone items ∧
+    ∀ i, some i ∈ (namesLoop items st).take → (some i ∈ st.take ∨ i < st.count + nonNone items) := by
+  induction items with
+  | nil => intro st; exact ⟨by simp [namesLoop, nonNone], fun i hi => Or.inl (by simpa [namesLoop] using hi)⟩
+  | cons x r ih =>
+    intro st
+    cases x with
+    | none =>
+      obtain ⟨h1, h2⟩ := ih { st with take := st.take ++ [none] }
+      simp only [namesLoop, nonNone_cons_none]
+      refine ⟨h1, fun i hi => ?_⟩
+      rcases h2 i hi with h | h
+      · left; simpa using h
+      · right; exact h
+    | int i' =>
+      obtain ⟨h1, h2⟩ := ih { st with count := st.count + 1 }
+      simp only [namesLoop, nonNone_cons _ _ (by simp : Ix.int i' ≠ Ix.none)]
+      refine ⟨by simp at h1 ⊢; omega, fun i hi => ?_⟩
+      rcases h2 i hi with h | h
+      · left; exact h
+      · right; simp at h ⊢; omega
+    | slice a b c =>
+      obtain ⟨h1, h2⟩ := ih { st with take := st.take ++ [some st.count], count := st.count + 1 }
+      simp only [namesLoop, nonNone_cons _ _ (by simp : Ix.slice a b c ≠ Ix.none)]
+      refine ⟨by simp at h1 ⊢; omega, fun i hi => ?_⟩
+      rcases h2 i hi with h | h
+      · simp at h; rcases h with h | h
+        · left; exact h
+        · right; omega
+      · right; simp at h ⊢; omega
+    | ell =>
+      obtain ⟨h1, h2⟩ := ih { st with take := st.take ++ [some st.count], count := st.count + 1 }
+      simp only [namesLoop, nonNone_cons _ _ (by simp : Ix.ell ≠ Ix.none)]
+      refine ⟨by simp at h1 ⊢; omega, fun i hi => ?_⟩
+      rcases h2 i hi with h | h
+      · simp at h; rcases h with h | h
+        · left; exact h
+        · right; omega
+      · right; simp at h ⊢; omega
+    | list l =>
+      obtain ⟨h1, h2⟩ := ih { st with take := st.take ++ [some st.count], count := st.count + 1 }
+      simp only [namesLoop, nonNone_cons _ _ (by simp : Ix.list l ≠ Ix.none)]
+      refine ⟨by simp at h1 ⊢; omega, fun i hi => ?_⟩
+      rcases h2 i hi with h | h
+      · simp at h; rcases h with h | h
+        · left; exact h
+        · right; omega
+      · right; simp at h ⊢; omega
+    | range a b c =>
+      obtain ⟨h1, h2⟩ := ih { st with take := st.take ++ [some st.count], count := st.count + 1 }
+      simp only [namesLoop, nonNone_cons _ _ (by simp : Ix.range a b c ≠ Ix.none)]
+      refine ⟨by simp at h1 ⊢; omega, fun i hi => ?_⟩
+      rcases h2 i hi with h | h
+      · simp at h; rcases h with h | h
+        · left; exact h
+        · right; omega
+      · right; simp at h ⊢; omega
+    | tensor s d =>
+      have hne : Ix.tensor s d ≠ Ix.none := by simp
+      cases s with
+      | nil =>
+        obtain ⟨h1, h2⟩ := ih { st with count := st.count + 1 }
+        simp only [namesLoop, nonNone_cons _ _ hne]
+        refine ⟨by simp at h1 ⊢; omega, fun i hi => ?_⟩
+        rcases h2 i hi with h | h
+        · left; exact h
+        · right; simp at h ⊢; omega
+      | cons m s' =>
+        simp only [namesLoop, nonNone_cons _ _ hne]
+        cases hnm : st.noMore
+        · obtain ⟨h1, h2⟩ := ih { take := st.take ++ List.replicate (m :: s').length (some st.count), count := st.count + 1, noMore := true }
+          simp only [Bool.not_false, if_true]
+          refine ⟨by simp at h1 ⊢; omega, fun i hi => ?_⟩
+          rcases h2 i hi with h | h
+          · simp at h; rcases h with h | h
+            · left; exact h
+            · right; omega
+          · right; simp at h ⊢; omega
+        · obtain ⟨h1, h2⟩ := ih { take := st.take, count := st.count + 1, noMore := true }
+          simp only [Bool.not_true, Bool.false_eq_true, if_false]
+          refine ⟨by simp at h1 ⊢; omega, fun i hi => ?_⟩
+          rcases h2 i hi with h | h
+          · left; exact h
+          · right; simp at h ⊢; omega
+    | mask s d =>
+      have hne : Ix.mask s d ≠ Ix.none := by simp
+      simp only [namesLoop, nonNone_cons _ _ hne]
+      cases hnm : st.noMore
+      · obtain ⟨h1, h2⟩ := ih { take := st.take ++ List.replicate s.length (some st.count), count := st.count + 1, noMore := true }
+        simp only [Bool.not_false, if_true]
+        refine ⟨by simp at h1 ⊢; omega, fun i hi => ?_⟩
+        rcases h2 i hi with h | h
+        · simp at h; rcases h with h | h
+          · left; exact h
+          · right; omega
+        · right; simp at h ⊢; omega
+      · obtain ⟨h1, h2⟩ := ih { take := st.take, count := st.count + 1, noMore := true }
+        simp only [Bool.not_true, Bool.false_eq_true, if_false]
+        refine ⟨by simp at h1 ⊢; omega, fun i hi => ?_⟩
+        rcases h2 i hi with h | h
+        · left; exact h
+        · right; simp at h ⊢; omega
+
+theorem lookNames_ok (names : Names) (t : List (Option Nat)) (h : ∀ i, some i ∈ t → i < names.length) :
+    ∃ l, lookNames names t = .ok l := by
+  induction t with
+  | nil => exact ⟨[], by simp [lookNames, pure, Except.pure]⟩
+  | cons x r ih =>
+    obtain ⟨l, hl⟩ := ih (fun i hi => h i (by simp [hi]))
+    cases x with
+    | none => exact ⟨none :: l, by rw [lookNames_cons_none, hl]; rfl⟩
+    | some i =>
+      have hi := h i (by simp)
+      have hget : names[i]? = some names[i] := List.getElem?_eq_getElem hi
+      exact ⟨names[i] :: l, by rw [lookNames_cons_some names r i _ hget, hl]; rfl⟩
+
+end TdVerif.C03
+
+namespace TdVerif.C03
+open TorchSpec Td
+
+theorem nonNone_append (a b : List Ix) : nonNone (a ++ b) = nonNone a + nonNone b := by
+  simp [nonNone, List.filter_append]
+
+theorem nonNone_replicate_slAll (k : Nat) : nonNone (List.replicate k slAll) = k := by
+  induction k with
+  | zero => rfl
+  | succ k ih => rw [List.replicate_succ, nonNone_cons _ _ (by simp [slAll]), ih]
+
+/-- an index torch accepts names at least one dim per non-`None` item (a mask at least one) -/
+theorem nonNone_le_specified (items : List Ix) : ∀ (e : Nat) (dims : Shape) (P : List Piece),
+    noEll items = true → walk e dims items = .ok P → nonNone items ≤ specified items := by
+  induction items with
+  | nil => intro _ _ _ _ _; exact Nat.le_refl _
+  | cons x r ih =>
+    intro e dims P hn h
+    simp only [noEll_cons, Bool.and_eq_true] at hn
+    obtain ⟨hx, hr⟩ := hn
+    cases x with
+    | ell => simp at hx
+    | none =>
+      simp only [walk] at h
+      obtain ⟨P', h1, -⟩ := map_ok h
+      simpa [nonNone_cons_none, specified] using ih _ _ _ hr h1
+    | mask s d =>
+      simp only [walk] at h
+      split at h
+      · rename_i hs
+        obtain ⟨P', h1, -⟩ := map_ok h
+        have := ih _ _ _ hr h1
+        have hpos : 0 < s.length := by cases s <;> simp_all
+        rw [nonNone_cons _ _ (by simp)]; simp only [specified]; omega
+      · cases h
+    | int i =>
+      cases dims with
+      | nil => simp [walk] at h
+      | cons n ds =>
+        simp only [walk] at h
+        obtain ⟨P', h1, -, -⟩ := consSel_ok h
+        have := ih _ _ _ hr h1
+        rw [nonNone_cons _ _ (by simp)]; simp only [specified]; omega
+    | slice a b c =>
+      cases dims with
+      | nil => simp [walk] at h
+      | cons n ds =>
+        simp only [walk] at h
+        obtain ⟨P', s, e', st', h1, -, -, -⟩ := consSlice_ok h
+        have := ih _ _ _ hr h1
+        rw [nonNone_cons _ _ (by simp)]; simp only [specified]; omega
+    | list l =>
+      cases dims with
+      | nil => simp [walk] at h
+      | cons n ds =>
+        simp only [walk] at h
+        obtain ⟨P', h1, -⟩ := consAdv_ok h
+        have := ih _ _ _ hr h1
+        rw [nonNone_cons _ _ (by simp)]; simp only [specified]; omega
+    | range a b c =>
+      cases dims with
+      | nil => simp [walk] at h
+      | cons n ds =>
+        simp only [walk] at h
+        obtain ⟨P', h1, -⟩ := consAdv_ok h
+        have := ih _ _ _ hr h1
+        rw [nonNone_cons _ _ (by simp)]; simp only [specified]; omega
+    | tensor s d =>
+      cases dims with
+      | nil => cases s <;> simp [walk] at h
+      | cons n ds =>
+        cases s with
+        | nil =>
+          simp only [walk] at h
+          obtain ⟨P', h1, -, -⟩ := consSel_ok h
+          have := ih _ _ _ hr h1
+          rw [nonNone_cons _ _ (by simp)]; simp only [specified]; omega
+        | cons m s =>
+          simp only [walk] at h
+          obtain ⟨P', h1, -⟩ := consAdv_ok h
+          have := ih _ _ _ hr h1
+          rw [nonNone_cons _ _ (by simp)]; simp only [specified]; omega
+
+/-- `_get_names_idx` never fails on an index torch accepts on the batch shape (coherent names): every `names[i]` it looks up
+    exists. (What it returns for advanced indices is another matter: `names_follow_index_counterexample`.) -/
+theorem namesIdx_ok (names : Names) (bs : Shape) (items : List Ix) (e : Nat) (P : List Piece)
+    (hn : noEll items = true) (hlen : names.length = bs.length)
+    (hs : specified items ≤ bs.length) (hw : walk e bs items = .ok P) :
+    ∃ nm, namesIdx (some names) bs.length (.tuple items) = .ok nm := by
+  have hle := nonNone_le_specified items e bs P hn hw
+  -- the converted index and the number of its non-None items
+  have hconv : ∃ conv, convertEllipsis (.tuple (namesItems items bs.length)) bs.length
+      = .ok (.tuple conv) ∧ nonNone conv ≤ bs.length := by
+    unfold namesItems
+    by_cases hlt : (items.filter (· ≠ Ix.none)).length < bs.length
+    · rw [if_pos hlt]
+      have := convertEllipsis_one items [] bs.length hn rfl (by simpa [specified] using hs)
+      refine ⟨_, this, ?_⟩
+      rw [nonNone_append, nonNone_append, nonNone_replicate_slAll]
+      simp only [specified, nonNone, List.filter_nil, List.length_nil] at hle ⊢
+      omega
+    · rw [if_neg hlt]
+      have hall : items.all (· != Ix.ell) = true := hn
+      refine ⟨items, by simp [convertEllipsis, hall], ?_⟩
+      simp only [nonNone] at hle ⊢
+      omega
+  obtain ⟨conv, hc, hcnt⟩ := hconv
+  obtain ⟨h1, h2⟩ := namesLoop_bound conv { take := [], count := 0, noMore := false }
+  obtain ⟨l, hl⟩ := lookNames_ok names (namesLoop conv { take := [], count := 0, noMore := false }).take (by
+    intro i hi
+    rcases h2 i hi with h | h
+    · simp at h
+    · simp at h; omega)
+  have htake : namesTake names bs.length items = .ok l := by
+    simp only [namesTake, hc, PyIndex.items, hl]
+  simp only [namesIdx, PyIndex.items, htake]
+  cases hb : isBoolean (.tuple items) with
+  | some k =>
+    cases k with
+    | zero => simp only []; split <;> exact ⟨_, rfl⟩
+    | succ k => simp only []; split <;> exact ⟨_, rfl⟩
+  | none => simp only []; split <;> exact ⟨_, rfl⟩
+
+end TdVerif.C03
+
+namespace TdVerif.C03
+open TorchSpec Td
+
+/-- names never make `td[idx]` fail: for a tensordict without names or with one name per batch dim -/
+theorem namesIdx_ok_of_index (tdnames : Option Names) (bs : Shape) (items : List Ix) (R : IndexResult)
+    (hn : noEll items = true) (hcoh : ∀ names, tdnames = some names → names.length = bs.length)
+    (h : index bs items = .ok R) :
+    ∃ nm, namesIdx tdnames bs.length (.tuple items) = .ok nm := by
+  cases hnm : tdnames with
+  | none => exact ⟨none, by simp [namesIdx]⟩
+  | some names =>
+    obtain ⟨hs, P, hw, -⟩ := index_inv h
+    exact namesIdx_ok names bs items _ P hn (hcoh names hnm) hs hw
+
+theorem namesIdx_single (tdnames : Option Names) (n : Nat) (x : Ix) :
+    namesIdx tdnames n (.single x) = namesIdx tdnames n (.tuple [x]) := by
+  cases tdnames with
+  | none => rfl
+  | some names => cases x <;> rfl
 
 end TdVerif.C03
